@@ -1,5 +1,6 @@
 import Chewing.Gen.SqliteV1
 import Chewing.Model.Loader
+import Chewing.Model.Syllable
 /-!
 Relational model of the in-file migration `SqliteDictionary::migrate_from_userphrase_v1`
 (`src/dictionary/sqlite.rs`) and of the joined view `SqliteDictionary::entries()` reads afterwards
@@ -14,8 +15,9 @@ Relational model of the in-file migration `SqliteDictionary::migrate_from_userph
   `Gen/SqliteV1.lean`, regenerated from the source by `tools/extractors/sqlite.py` on every run.
 * `row.get::<uN>(i)` of a value outside the type's range is an error, and any error makes
   `SqliteDictionary::open` fail as a whole (the rows are all read before the first write).
-* `Syllable::try_from(0)` fails, every other 16-bit value is accepted: zero phones are SKIPPED
-  (not: terminate the syllable list).
+* `Syllable::try_from` fails on 0 and — since the repair of C13's F47 — on every value that is not a syllable
+  code (`Chewing.validCode`), and the push is guarded by `!syllable.is_empty()`: zero phones (the padding),
+  values that are no syllable and the empty pattern `0x8000` are SKIPPED (not: terminate the syllable list).
 * The migrated state is the map `dictionary_v1 ⋈ userphrase_v2` keyed by (syllables, phrase) —
   `INSERT OR REPLACE`: the last row of a key wins — and `entries()` answers
   `(syllables, phrase, max(freq, coalesce(user_freq, 0)), time)` per key.  The iteration order of
@@ -46,7 +48,10 @@ def getInt (r : V1Row) (bits i : Nat) : Except Unit Nat :=
 def getText (r : V1Row) (i : Nat) : Except Unit (List Nat) :=
   if Gen.v1SelectIdx[i]? = some colPhrase then .ok r.phrase else .error ()
 
-/-- the phone loop over the column indices `is`: `Syllable::try_from` rejects 0 (skipped) -/
+/-- `if let Ok(syllable) = Syllable::try_from(v) { if !syllable.is_empty() { push } }` -/
+def keepPhone (v : Nat) : Bool := validCode v && !isEmptySyl v
+
+/-- the phone loop over the column indices `is`: a phone `try_from` rejects, or the empty syllable, is skipped -/
 def readPhones (r : V1Row) : List Nat → Except Unit (List Nat)
   | [] => .ok []
   | i :: is =>
@@ -55,7 +60,7 @@ def readPhones (r : V1Row) : List Nat → Except Unit (List Nat)
     | .ok v =>
       match readPhones r is with
       | .error e => .error e
-      | .ok vs => .ok (if v = 0 then vs else v :: vs)
+      | .ok vs => .ok (if keepPhone v then v :: vs else vs)
 
 /-- `for i in A..B` -/
 def phoneIdxs : List Nat := List.range' Gen.v1PhoneFirst (Gen.v1PhoneEnd - Gen.v1PhoneFirst)
